@@ -75,19 +75,40 @@
 (*                 backup steps; FALSE = MirroredPrepare: the pinned order *)
 (*                 yaml_merge.py:291-298 (backup) then :300-307 (prepare), *)
 (*                 which TLC shows to violate PreWriteFailureLeavesNoTrace *)
+(*   CloseBeforeRestore TRUE = the restore-on-assertion handler first      *)
+(*                 closes the half-written dump handle (yaml_set.py:339);  *)
+(*                 FALSE: it does not, so the handle's buffered partial    *)
+(*                 document is flushed over the restored file when the     *)
+(*                 with-block unwinds                                      *)
+(*   BackupFollowsLinks TRUE = copy2(target, bak) copies the bytes the     *)
+(*                 target path reads (shutil default); FALSE: a symlinked  *)
+(*                 target is copied as a link, the .bak ALIASes the target *)
+(*                                                                         *)
+(* Buffering.  The dump writes through a buffered handle.  A failing dump  *)
+(* can leave part of the new document                                      *)
+(*   eff = "partial"  already in the file (flushed), or                    *)
+(*   eff = "buffered" still in the handle (the file is unchanged right     *)
+(*                    after the call); it reaches the file - at the        *)
+(*                    handle's own offset 0, over whatever the file holds  *)
+(*                    by then - when THAT handle is closed (pend, wpos).   *)
+(* File kind.  o.link: the target path is a symbolic link to a regular     *)
+(* file; every tool reads and writes through it.  A .bak that is a second  *)
+(* name of the same file has the value "ALIAS".                            *)
 (***************************************************************************)
 EXTENDS Naturals, Sequences, FiniteSets
 
-CONSTANTS BackupFirst, CheckOutput, ValidateFirst, PrepareFirst, MaxInputs
+CONSTANTS BackupFirst, CheckOutput, ValidateFirst, PrepareFirst, CloseBeforeRestore, BackupFollowsLinks, MaxInputs
 
-FVals == {"absent", "ORIG", "STALE", "EMPTY", "PARTIAL", "NEW"}
+FVals == {"absent", "ORIG", "STALE", "EMPTY", "PARTIAL", "NEW", "ALIAS"}
 Tools == {"set", "merge_out", "merge_ow", "rotate"}
 
 \* option sets: tool, --backup, a stale .bak present, --output file pre-existing,
 \* yaml-set saving as JSON (flow root or .json name: no temporary copy),
-\* changed = there is something to write (FALSE only for rotate without secrets)
+\* changed = there is something to write (FALSE only for rotate without secrets),
+\* link = the target path is a symbolic link to a regular file
 AllOpts == { o \in [tool : Tools, bak : BOOLEAN, stale : BOOLEAN, outx : BOOLEAN,
-                    json : BOOLEAN, changed : BOOLEAN] :
+                    json : BOOLEAN, changed : BOOLEAN, link : BOOLEAN] :
+               /\ (o.link => o.tool # "merge_out")     \* with --output the first input is only read
                /\ (o.tool = "merge_out" => ~o.bak)     \* yaml_merge.py:275 refuses --backup with --output
                /\ (o.outx => o.tool = "merge_out")
                /\ (o.json => o.tool = "set")
@@ -108,7 +129,7 @@ FileRoles == {"target", "backup", "output", "tmp", "other"}
 IOOps == {"exists", "remove", "copy2", "tmpfile", "open_r", "open_rb", "open_w", "open_wb",
           "copyfileobj", "dump", "close"}
 Events == [op : IOOps, role : FileRoles, res : {"ok", "fail", "true", "false", "assert"},
-           eff : {"-", "none", "empty", "partial", "full"}]
+           eff : {"-", "none", "empty", "partial", "full", "buffered"}]
           \cup [op : {"exit"}, role : ExitCauses, res : {"ok", "fail"}, eff : {"-"}]
 
 Fs0(o) == [target |-> "ORIG",
@@ -120,6 +141,8 @@ SInit(o) == [o |-> o,
              fs |-> Fs0(o), fs0 |-> Fs0(o),
              faults |-> 1,           \* injected I/O faults still available
              open |-> <<>>,          \* stack of the roles of the handles opened by the save code
+             wpos |-> 0,             \* depth in that stack of the handle the dump writes through (0: not open)
+             pend |-> FALSE,         \* that handle holds a buffered, not yet flushed part of the new document
              nload |-> 0,            \* input files opened for loading
              code |-> "run", cause |-> "none",
              copied |-> FALSE,       \* CopyToBak has succeeded
@@ -132,7 +155,11 @@ Go(s, l) == [s EXCEPT !.pc = l]
 Abort(s, c) == [s EXCEPT !.pc = "abort", !.faults = 0, !.cause = c]
 Done(s, code, c) == [s EXCEPT !.pc = "done", !.code = code, !.cause = c]
 Push(s, r) == [s EXCEPT !.open = <<r>> \o @]
-Pop(s) == [s EXCEPT !.open = Tail(@)]
+\* closing a handle; closing the dump handle flushes what it still buffers over the file as it is now
+Pop(s) == IF s.wpos > 0 /\ Len(s.open) = s.wpos
+          THEN [s EXCEPT !.open = Tail(@), !.wpos = 0, !.pend = FALSE,
+                         !.fs = IF s.pend THEN [@ EXCEPT ![IF s.o.tool = "merge_out" THEN "output" ELSE "target"] = "PARTIAL"] ELSE @]
+          ELSE [s EXCEPT !.open = Tail(@)]
 Put(s, role, v) == [s EXCEPT !.fs = [@ EXCEPT ![role] = v]]
 
 Okay(e) == e.res = "ok" /\ e.eff = "-"
@@ -192,7 +219,8 @@ AtLabel(l, s, e) ==
     [] l = "remove_bak" -> Plain(s, e, "remove", "backup", Go(Put(s, "backup", "absent"), "copy_bak"))
     [] l = "copy_bak" ->
          IF e.op = "copy2" /\ e.role = "backup"
-         THEN IF Okay(e) THEN [Go(Put(s, "backup", s.fs.target), AfterBackup(s)) EXCEPT !.copied = TRUE]
+         THEN IF Okay(e) THEN [Go(Put(s, "backup", IF s.o.link /\ ~BackupFollowsLinks THEN "ALIAS" ELSE s.fs.target),
+                                  AfterBackup(s)) EXCEPT !.copied = TRUE]
               ELSE IF e.res = "fail" /\ e.eff \in {"none", "empty", "partial", "full"} /\ s.faults = 1
               THEN Abort(Put(s, "backup", IF e.eff = "full" THEN s.fs.target ELSE LeftBy(e.eff, s.fs.backup)), "io")
               ELSE Reject(s)
@@ -210,14 +238,18 @@ AtLabel(l, s, e) ==
          THEN IF ~PrepareFirst /\ s.pc = "open_w" /\ s.o.tool = "merge_ow" /\ s.open = <<>>
                  /\ e.res = "fail" /\ e.role = "unrepresentable"
               THEN Done(s, "fail", "unrepresentable") ELSE Reject(s)
-         ELSE Plain(s, e, "open_w", W(s), Go(Push(Put(s, W(s), "EMPTY"), W(s)), AfterOpenW(s)))
+         ELSE Plain(s, e, "open_w", W(s), [Go(Push(Put(s, W(s), "EMPTY"), W(s)), AfterOpenW(s)) EXCEPT !.wpos = Len(s.open) + 1])
     [] l = "dump" ->
          IF e.op = "dump" /\ e.role = W(s)
          THEN IF Okay(e) THEN Go(Put(s, W(s), "NEW"), "close_w")
               ELSE IF e.res = "fail" /\ e.eff \in {"none", "partial", "full"} /\ s.faults = 1
               THEN Abort(Put(s, W(s), IF e.eff = "full" THEN "NEW" ELSE LeftBy(e.eff, s.fs[W(s)])), "io")
-              ELSE IF e.res = "assert" /\ e.eff \in {"none", "partial"} /\ s.faults = 1 /\ YamlSet(s)
-              THEN [Go(Put(s, W(s), LeftBy(e.eff, s.fs[W(s)])), "r_close_w") EXCEPT !.faults = 0, !.cause = "assert"]
+              ELSE IF e.res = "fail" /\ e.eff = "buffered" /\ s.faults = 1          \* dump-partial, part still in the handle
+              THEN [Abort(s, "io") EXCEPT !.pend = TRUE]
+              ELSE IF e.res = "assert" /\ e.eff \in {"none", "partial", "buffered"} /\ s.faults = 1 /\ YamlSet(s)
+              THEN [Go(IF e.eff = "buffered" THEN s ELSE Put(s, W(s), LeftBy(e.eff, s.fs[W(s)])),
+                       IF CloseBeforeRestore THEN "r_close_w" ELSE "r_open_wb")
+                    EXCEPT !.faults = 0, !.cause = "assert", !.pend = (e.eff = "buffered")]
               ELSE Reject(s)
          ELSE Reject(s)
     [] l = "close_w" -> IF e.op = "close" /\ e.role = W(s) /\ (Okay(e) \/ FailsClean(s, e))
@@ -259,7 +291,7 @@ Lbl(s) == IF s.pc = "work" THEN W0(s) ELSE s.pc
 \* state predicates (the property)
 TypeOK(s) == /\ s.fs.target \in FVals /\ s.fs.backup \in FVals /\ s.fs.output \in FVals
              /\ s.faults \in {0, 1} /\ s.code \in {"run", "ok", "fail"} /\ s.cause \in ExitCauses
-             /\ Len(s.open) <= 2
+             /\ Len(s.open) <= 3 /\ s.wpos <= Len(s.open) /\ (s.pend => s.wpos > 0)
 
 \* a run that ends non-zero for a reason detected before writing leaves every file as it was
 PreWriteFailureLeavesNoTrace(s) ==
